@@ -1,6 +1,7 @@
 import Revm.Proofs.EvmInstLifeTop
 import Revm.Proofs.EvmInstSdWitness
 import Revm.Proofs.EvmInstWrapTop
+import Revm.Proofs.EvmInstLoaded2
 /-! C01Inst — the whole-transaction model `Revm.Model.Evm.transact` (C01) IS AN INSTANCE of the abstract machines about
 which C28–C31 are proved, so those properties hold of `Evm.transact` runs.
 
@@ -316,8 +317,8 @@ Where abstract and concrete model do not line up (reported):
   database (`dbFails`) has no concrete counterpart. `sd_refines` is the refinement under `s.spec = w.js.spec` and
   `gas.remaining < 2^64`; the cost tables agree (`selfdestructCost_agree`) and `% 2^160` is `addrOfWord`.
 * C30's assumption "the executing contract is in the journal" is NOT a consequence of `Journal.selfdestruct` succeeding
-  (an unloaded contract naming itself is loaded from the database), and it is not derived from the run here
-  (`FullStatementContractLoaded`); the whole-run theorem uses the account `JournaledState::selfdestruct` itself reads.
+  (an unloaded contract naming itself is loaded from the database); it IS a run invariant of `Evm.transact`
+  (`evm_contract_loaded`), so `evm_selfdestruct_balance_left` carries no hypothesis.
 * concrete runs never produce `Next.fatal`, `insertErr`, `HandlerRes.err`, an inspector outcome or a halting `step`:
   only finished runs (and only observing inspectors) are instances. -/
 
@@ -413,9 +414,9 @@ theorem evm_selfdestruct_refines {he : HostEnv} {s : Interp.IState} {w w' : Worl
         some (Revm.Proofs.EvmInstSd.absI s' (Revm.Proofs.EvmInstSd.iresOf r), w'.js) :=
   Revm.Proofs.EvmInstSd.sd_refines hcode hr hspec hgas
 
-/-- "the balance that left the contract" needs C30's own assumption that the executing contract is in the journal
-when the instruction starts; not derived from the run (`FullStatementContractLoaded` says what is missing) -/
-theorem evm_selfdestruct_balance_left_partial {he : HostEnv} {s : Interp.IState} {w w' : World} {d : Interp.Done}
+/-- per instruction: with the executing contract in the journal (which `evm_contract_loaded` provides along every run),
+the notified value is exactly what left the contract's journal balance -/
+theorem evm_selfdestruct_balance_left_step {he : HostEnv} {s : Interp.IState} {w w' : World} {d : Interp.Done}
     {acc : Journal.Acct} {x : Nat × Nat × Nat} (hcode : s.code[s.pc]? = some 0xff)
     (hr : Revm.Proofs.EvmInstSd.Resolved he s w d w') (hloaded : w.js.state s.target = some acc)
     (hx : Revm.Proofs.EvmInstHooks.sdTruth s w d = some x) :
@@ -424,8 +425,36 @@ theorem evm_selfdestruct_balance_left_partial {he : HostEnv} {s : Interp.IState}
     SelfdestructNotify.balanceOf w.js s.target = SelfdestructNotify.balanceOf w'.js s.target + x.2.2 :=
   Revm.Proofs.EvmInstSd.evm_selfdestruct_balance_left_partial hcode hr hloaded hx
 
-/-- the missing run invariant, kept visible -/
-def FullStatementContractLoaded : Prop := Revm.Proofs.EvmInstSd.FullStatementContractLoaded
+/-- THE RUN INVARIANT (C30's assumption, discharged): in every `Evm.transact` run, completed or not, every instruction
+executes in a frame whose target account is in the journal's state map when the instruction starts. The first frame's
+target is loaded by `make_call_frame` (value step) / `make_create_frame` (`load_account(created)`); a new frame's target
+is loaded the same way or is the running frame's own address (DELEGATECALL); no instruction or outcome insertion
+changes a frame's `target` (`Proofs/EvmInstTgt*.lean`, a sweep over all handlers); no journal operation, revert
+included, removes an account from the state map (`KLe`). -/
+theorem evm_contract_loaded (fuel : Nat) (w : World) (e : Env) (spec : Nat) (r : R (Outcome × World))
+    (first : Spawn) (evs : List LEv) (h : transactTr fuel w e spec = (r, some (first, evs))) :
+    ∀ ev ∈ evs, Revm.Proofs.EvmInstSd.EvLoaded { blockNumber := e.block.number } ev :=
+  Revm.Proofs.EvmInstLoaded.contract_loaded fuel w e spec r first evs h
+
+/-- the open frames' targets stay in the journal along `Evm.iterate` (the loop invariant itself) -/
+theorem evm_iterate_keeps_targets_loaded {cfg : Cfg} {stack : List (Frame Journal.Checkpoint)} {w : World} {nx}
+    (h : iterate journalOps cfg stack w = .ok nx) (hi : Revm.Proofs.EvmInstLoaded.Inv stack w) :
+    Revm.Proofs.EvmInstLoaded.InvN nx :=
+  Revm.Proofs.EvmInstLoaded.iterate_inv h hi
+
+/-- C30 ON `Evm.transact`, "the balance that left the contract", no hypothesis: every entry `(c, t, v)` of the completed
+SELFDESTRUCTs of a traced run (= the inspector's notifications, `evm_selfdestruct_notified_once`) belongs to an
+instruction at opcode `0xFF` resolved in a frame at `c` whose account `acc` was in the journal; `v` is what `acc` loses
+and the journal balance of `c` before the instruction is its balance after it plus `v` -/
+theorem evm_selfdestruct_balance_left (fuel : Nat) (w : World) (e : Env) (spec : Nat) (r : R (Outcome × World))
+    (first : Spawn) (evs : List LEv) (h : transactTr fuel w e spec = (r, some (first, evs)))
+    (x : Revm.Model.InspectorHooks.Insn) (g : Revm.Proofs.EvmInstHooks.Truth) (hev : LEv.insn x g ∈ evs)
+    (y : Nat × Nat × Nat) (hy : g.sd = some y) :
+    ∃ s w0 d w1 acc, Revm.Proofs.EvmInstSd.Resolved { blockNumber := e.block.number } s w0 d w1 ∧
+      s.code[s.pc]? = some 0xff ∧ w0.js.state s.target = some acc ∧ y.1 = s.target ∧
+      y.2.2 = Revm.Proofs.SelfdestructNotify.movedValue acc w0.js.spec s.target y.2.1 ∧
+      SelfdestructNotify.balanceOf w0.js s.target = SelfdestructNotify.balanceOf w1.js s.target + y.2.2 :=
+  Revm.Proofs.EvmInstLoaded.evm_selfdestruct_balance_left fuel w e spec r first evs h x g hev y hy
 
 /-- non-vacuity: a kernel-evaluated run (a call to `0xbb`, which CALLs `0xcc`, which runs LOG0 and SELFDESTRUCTs to the
 fresh account `0xdd`, 7 wei move) satisfies the hypothesis of the theorems above; its word has one `log 0` and one
